@@ -16,7 +16,7 @@ func init() {
 	Registry["C03"] = func(r *Run) *core.Report { return mapProtocol(r, "C03", 0) }
 	Registry["C04"] = func(r *Run) *core.Report { return mapProtocol(r, "C04", 1) }
 	expl := func(which, p1 string) string {
-		return "Linearizability of " + which + " is NOT decided (it quantifies over interleavings). Decided, on every CFG path, are the protocol-shape obligations without which this design cannot be linearizable: " + p1 + "; (P2) unique value pointers / immutable entries (slot pointers are per-call allocations, published entries are never written); (P3) after taking the bucket lock a writer touches the bucket only after seeing the resize flag clear and then the table pointer unchanged, in that order; (P4) in resize all bucket copies precede the single publishing store of the very table they filled, which precedes clearing the flag, and the table pointer is stored nowhere else except the constructor; (P5) bucket words are written only under the bucket lock; (P6) the copy runs under the source bucket's lock and leaves the source intact; (P7) Clear's resize request reaches the publishing store of a fresh table on every path to its return (it cannot be dropped); (P8) bucket array, mask and seed of an attempt come from one table value; (P10) a packed bucket word (meta / top-hash) is rewritten from a read of the same bucket's word; (P11) the lock-free lookup reports a key absent only on a path whose last chain-link test saw 'next == nil'; (P3a/b) the resize flag goes 0 -> one non-zero constant -> 0 and every test of it tells that constant from 0, and the table re-check compares pointer identity; (P12) packed-word arithmetic is carried out in 64 bits; (P14) a slot write pairs a bucket with an index found in that very bucket (both used directly, or remembered together; one index value, one bucket value)."
+		return "Linearizability of " + which + " is NOT decided (it quantifies over interleavings). Decided, on every CFG path, are the protocol-shape obligations without which this design cannot be linearizable: " + p1 + "; (P2) unique value pointers / immutable entries (slot pointers are per-call allocations, published entries are never written); (P3) after taking the bucket lock a writer touches the bucket only after seeing the resize flag clear and then the table pointer unchanged, in that order; (P4) in resize all bucket copies precede the single publishing store of the very table they filled, which precedes clearing the flag, and the table pointer is stored nowhere else except the constructor; (P5) bucket words are written only under the bucket lock: in the compute core on every path, and at every other write of a bucket word - atomic store, swap, add or compare-and-swap, or plain - in any function reachable from the public API, unless the bucket written is not yet published (the copy's destination, a new overflow bucket); (P6) the copy runs under the source bucket's lock and leaves the source intact; (P7) Clear's resize request reaches the publishing store of a fresh table on every path to its return (it cannot be dropped); (P8) bucket array, mask and seed of an attempt come from one table value; (P10) a packed bucket word (meta / top-hash) is rewritten from a read of the same bucket's word; (P11) the lock-free lookup reports a key absent only on a path whose last chain-link test saw 'next == nil'; (P3a/b) the resize flag goes 0 -> one non-zero constant -> 0 and every test of it tells that constant from 0, and the table re-check compares pointer identity; (P12) packed-word arithmetic is carried out in 64 bits; (P14) a slot write pairs a bucket with an index found in that very bucket (both used directly, or remembered together; one index value, one bucket value)."
 	}
 	Metas["C03"] = Meta{Explanation: expl("Map", "(P1) the lock-free reader returns a value only after reading the value pointer, then the key pointer, matching the key, and re-reading the same value slot unchanged"),
 		Rule:        "one obligation per (rule, function/specialisation, exit | site); non-trivial = decided by exploring the product of the CFG with the protocol automaton or by a provenance query",
@@ -38,6 +38,7 @@ func mapProtocol(r *Run, prop string, idx int) *core.Report {
 	}
 	p2Unique(r, rep, prop, mm)
 	p3p5Core(r, rep, prop, mm)
+	p5Everywhere(r, rep, prop, mm)
 	p4Resize(r, rep, prop, mm)
 	p6Copy(r, rep, prop, mm)
 	p7Clear(r, rep, prop, mm)
@@ -639,6 +640,83 @@ func p2Unique(r *Run, rep *core.Report, prop string, mm *core.MapModel) {
 }
 
 // ---- P3 / P5 from the compute-core flow ----
+
+// p5Everywhere: P5 outside the compute core. Every write of a bucket word - atomic store, swap, add or
+// compare-and-swap, or a plain store - made by any function reachable from the public API happens while the lock of
+// the chain's root bucket is held, or on a bucket that is not published yet (the copy's destination, a new overflow
+// bucket). A lock-free write of a slot, however atomic, is a second writer the locked read-modify-write does not
+// serialise with: an update made between a locked writer's read and its write is overwritten.
+func p5Everywhere(r *Run, rep *core.Report, prop string, mm *core.MapModel) {
+	mine := map[string]bool{}
+	for _, b := range mm.BucketT {
+		mine[b] = true
+	}
+	reach := apiReachable(r)
+	n := 0
+	for _, f := range r.P.Funcs {
+		if !reach[f] || r.M.Acquire[f] || r.M.Release[f] || f.Blocks == nil {
+			continue
+		}
+		if _, isW := r.M.Wrappers[f]; isW {
+			continue
+		}
+		if _, isH := r.M.HelperWord[f]; isH {
+			continue
+		}
+		seen := map[string]bool{}
+		core.Instrs(f, func(in ssa.Instruction) {
+			var addr ssa.Value
+			op := ""
+			switch x := in.(type) {
+			case *ssa.Store:
+				addr, op = x.Addr, "plain store"
+			case ssa.CallInstruction:
+				if _, isGo := in.(*ssa.Go); isGo {
+					return
+				}
+				o, a, ok := core.AtomicOp(x)
+				if !ok || o == "Load" {
+					return
+				}
+				addr, op = a, "atomic "+o
+			default:
+				return
+			}
+			a := core.Addr(addr)
+			if !mine[a.Owner] || a.Field == "" {
+				return
+			}
+			if r.M.LockEventOf(in) != nil {
+				return // the lock word's own operations
+			}
+			if ci, isCall := in.(ssa.CallInstruction); isCall && r.M.LockEventOfCall(ci) != nil {
+				return
+			}
+			n++
+			cons := fmt.Sprintf("%s %s of %s", fn(f), op, a.Key())
+			if seen[cons] {
+				// one obligation per (function, operation, word); every site is still judged
+				cons = ""
+			}
+			ok, why := false, ""
+			if fi := unpublishedAt(r, f, addr, in, 0); fi.OK {
+				ok = true
+			} else {
+				ok, why = lockCovers(r, f, addr, in, 0)
+			}
+			if cons == "" {
+				if !ok {
+					rep.Fail(prop+".P5", fmt.Sprintf("%s %s of %s", fn(f), op, a.Key()), r.P.InstrPos(in), "bucket word written without holding the lock of its chain's root bucket (and the bucket is not an unpublished one): "+why)
+				}
+				return
+			}
+			seen[cons] = true
+			rep.Check(ok, prop+".P5", cons, r.P.InstrPos(in), "written under the lock of its chain's root bucket, or into a bucket not yet published",
+				"bucket word written without holding the lock of its chain's root bucket (and the bucket is not an unpublished one): a lock-free write is not serialised with the locked read-modify-write of the same slot: "+why)
+		})
+	}
+	rep.MinCount(prop+".P5", "bucket word writes examined", n, 6)
+}
 
 func p3p5Core(r *Run, rep *core.Report, prop string, mm *core.MapModel) {
 	rep.Fn(fn(mm.Core))
